@@ -110,6 +110,10 @@ class Decoder:
         self.n = 0
         self.ndec = self.nok = 0
         self.caches = self._find_caches()
+        from ramses_tx.ramses import CODES_SCHEMA
+
+        self.names = {str(k): str(v.get("name", "")) for k, v in CODES_SCHEMA.items()}
+        self.rng_skipped: dict[str, int] = {}
         self.clock_patched = install_jump_clock()
         rng = random.Random(99)
         self.burst = [f"RP --- 01:{100000 + i:06d} 18:{200000 + 7 * i:06d} --:------ 30C9 003 00{rng.randrange(0x0F00):04X}"
@@ -198,10 +202,14 @@ class Decoder:
                         if k in el and isinstance(el[k], str):
                             e["idx"].append([pos, el[k]])
                             info.setdefault("idx_keys", []).append(k)
+        guessed = self.names.get(code, "unknown_").startswith(("unknown_", "message_"))
         for k, val in leaves(pl):
             if isinstance(val, bool) or not isinstance(val, (int, float)):
                 continue
             cls = key_class(k)
+            if cls and guessed:  # the library itself does not know what this code's bytes mean: the key
+                self.rng_skipped[f"{code}:{k}"] = self.rng_skipped.get(f"{code}:{k}", 0) + 1  # names
+                continue  # (percent_4, temperature_0 ...) are placeholders, not claims - not judged
             if cls and val == val and abs(val) < 2e6:
                 e["rng"].append([cls, int(round(val * 1000))])
                 info.setdefault("rng_keys", []).append(k)
@@ -523,6 +531,7 @@ def main(tier: str, replay: str | None) -> None:
             "lru_caches_cleared": [getattr(c, "__qualname__", str(c)) for c in dec.caches],
             "wall_clock_substituted_in": dec.clock_patched, "clock_reads_by_parsers": JumpClock._calls,
             "inputs": src_count,
+            "range_keys_not_judged_in_codes_of_unknown_meaning": dec.rng_skipped,
             "timing_s": {k: v for k, v in stats.items() if k.startswith("t_")},
             "bounds": b,
             "samples": [recs[0]["meta"]["frames"], recs[len(recs) // 2]["meta"]["hist"], recs[-1]["meta"]["frames"]],
@@ -531,7 +540,8 @@ def main(tier: str, replay: str | None) -> None:
             "payload strings are sampled systematically from the library's regexes (boundary + seeded random), not exhaustively",
             "a: json.dumps(payload) without a default hook succeeds (tuples/int keys are accepted as JSON-able)",
             "c: judged for zone_idx/domain_id/ufh_idx/ufx_idx/dhw_idx; 0404 'HW' and 000C role-derived ids left open",
-            "e: ratio/temperature classes are assigned by key name (see key_class)",
+            "e: ratio/temperature classes are assigned by key name (see key_class); not judged for codes the "
+            "library itself names unknown_*/message_* (placeholder keys such as percent_4 of 22E0/22E5/22E9)",
             "d: judged only where the array and every element decode",
         ],
     )
